@@ -533,9 +533,13 @@ func (c *cmafIngester) sendMediaSegments(ctx context.Context, nextSegNr, nowMS i
 		atoMS := int(c.cfg.getAvailabilityTimeOffsetS() * 1000)
 		for idx, rd := range c.repsData {
 			var se segEntries
+			_, inAsset := c.asset.Reps[rd.repID]
 			// The first representation is used as reference for generating timeline entries
 			if idx == 0 {
 				refSegEntries = c.asset.generateTimelineEntries(rd.repID, wTimes, atoMS)
+				se = refSegEntries
+			} else if !inAsset {
+				// Generated subtitles are not part of the asset. As in the MPD, they follow the reference timeline
 				se = refSegEntries
 			} else {
 				switch rd.contentType {
@@ -548,6 +552,9 @@ func (c *cmafIngester) sendMediaSegments(ctx context.Context, nextSegNr, nowMS i
 				}
 			}
 			segTime := int(se.lastTime())
+			if !inAsset {
+				segTime = int(rep2SubsTime(se.lastTime(), int(se.mediaTimescale)))
+			}
 			segPart = replaceTimeOrNr(rd.mediaPattern, segTime)
 			segPath := fmt.Sprintf("%s/%d%s", rd.repID, segTime, rd.extension)
 			if c.streamsURLs {
